@@ -300,6 +300,43 @@ class Guards:
             return None
         return m
 
+    def m_cache_file_compare(self):
+        """``x == <executor>.<attr>`` where <attr> is what ``is_cache_file``
+        compares a norm-cased name with (the question asked directly)."""
+        prog = self.ctx.prog
+        R = self.ctx.R
+        attrs = set()
+        F = prog.funcs.get(R.executor + '.is_cache_file')
+        todo, seen = [F] if F is not None else [], set()
+        while todo:
+            f0 = todo.pop()
+            if f0.qualname in seen:
+                continue
+            seen.add(f0.qualname)
+            for n in ast.walk(f0.node):
+                if isinstance(n, ast.Compare) and len(n.ops) == 1 and \
+                        isinstance(n.ops[0], ast.Eq):
+                    for e in (n.left, n.comparators[0]):
+                        if isinstance(e, ast.Attribute) and isinstance(
+                                e.value, ast.Name) and \
+                                e.value.id == f0.self_name:
+                            attrs.add(e.attr)
+            for c in prog.calls_in(f0):
+                for g in prog.resolve_call(c, f0):
+                    if isinstance(g, Func) and g.cls == f0.cls:
+                        todo.append(g)
+
+        def m(atom, func, cn):
+            if not (isinstance(atom, ast.Compare) and len(atom.ops) == 1 and
+                    isinstance(atom.ops[0], (ast.Eq, ast.NotEq))):
+                return None
+            for e in (atom.left, atom.comparators[0]):
+                if isinstance(e, ast.Attribute) and e.attr in attrs and \
+                        R.executor in prog.type_of(e.value, func):
+                    return 'F' if isinstance(atom.ops[0], ast.Eq) else 'T'
+            return None
+        return m
+
     def m_output_intact(self):
         ex = self.ctx.R.executor + '.file_comparison_result'
 
@@ -389,7 +426,8 @@ class Guards:
             req['KEY_FREE'] = [self.m_call(
                 {C + '.has_norm_cased_file'}, 'F', role='new')]
             req['NOT_CACHE_FILE'] = [self.m_call(
-                {R.executor + '.is_cache_file'}, 'F')]
+                {R.executor + '.is_cache_file'}, 'F'),
+                self.m_cache_file_compare()]
             dtm = R.builder + '._dirs_to_make'
             req['PARENTS_MAKEABLE'] = [
                 ('node', lambda sn: Q.is_done(sn, dtm))]
